@@ -6570,3 +6570,106 @@ def nm2(m, run, rule='NM2.normalisation-is-the-affine-map-onto-the-unit-interval
             bad.append(('knots %s' % [str(x) for x in kv], why))
     run.ob(rule, '%s :: %d knot vectors' % (fi.key, len(vecs)), not bad, 'k -> (k - first) / (last - first), new list' if not bad else '%s: %s   [%d of %d]' % (bad[0][0], bad[0][1], len(bad), len(vecs)),
            'geomdl/knotvector.py:%d in %s' % (fi.node.lineno, fi.key))
+
+
+# ====================================================================================== C15: Surface.tessellate against a recording tessellation component
+def tv3(m, run, rule='TV3.tessellate-feeds-the-component-and-re-evaluates'):
+    """TV3: abstract.Surface.tessellate interpreted on an abstract surface whose tessellation component, evaluated points, sample sizes
+    and evaluate_single are recorders: a first call hands the component the evaluated points with size_u / size_v = the surface's own
+    sample sizes of u / v (different from each other) and its trims, forwards any other keyword, and drops size_u / size_v / trims given by
+    the caller; afterwards every vertex whose (u, v) lies in the unit square carries evaluate_single of its own (u, v); a second call
+    does nothing while the component reports a tessellation, and tessellates and re-evaluates again with force=True"""
+    fi = m.lookup(('BSpline', 'Surface'), 'tessellate', 'methods')
+    if fi is None:
+        raise AnalysisError('Surface.tessellate not found')
+    for ntrims in (1, 0):
+        why = _tv3_case(m, fi, ntrims)
+        run.ob(rule, '%s :: surface with %s' % (fi.key, 'a trim' if ntrims else 'no trims'), why is None,
+               'evaluated points, own sample sizes per direction and trims go to the component; every vertex is re-evaluated at its own (u, v); cached unless forced' if why is None else why,
+               'geomdl/abstract.py:%d in %s' % (fi.node.lineno, fi.key))
+
+
+def tessellate_keywords(m):
+    """the keyword names abstract.Surface.tessellate hands to its tessellation component when the caller passes none (from the recorded call)"""
+    fi = m.lookup(('BSpline', 'Surface'), 'tessellate', 'methods')
+    rec = []
+    _tv3_case(m, fi, 1, rec, extra=False)
+    return set(rec[0][1]) if rec else None
+
+
+def _tv3_case(m, fi, ntrims, calls=None, extra=True):
+    calls = [] if calls is None else calls
+    state = {'done': False}
+
+    def L(*lab):
+        return Tok('DEF', dep=frozenset([lab]))
+    uvs = [(0.0, 0.0), (0.25, 1.0), (1.0, 0.5), (0.5, 0.5)]
+
+    def make():
+        verts = []
+
+        def tess(sk, node, points, **kw):
+            calls.append((points, dict(kw)))
+            state['done'] = True
+            del verts[:]
+            for k, uv in enumerate(uvs):
+                verts.append(Bag('Vertex', id=k, uv=list(uv), data=[L('grid', len(calls), k, c) for c in range(3)]))
+        tsl = Bag('tessellator', tessellate=Py(tess, 'tessellate'), is_tessellated=Py(lambda sk, node: state['done'], 'is_tessellated'),
+                  reset=Py(lambda sk, node: state.__setitem__('done', False), 'reset'))
+        tsl._a['vertices'] = verts
+        tsl._a['faces'] = []
+        evalpts = [[L('ev', k, c) for c in range(3)] for k in range(12)]
+        trims = [Bag('rec:trim', name='t') for _ in range(ntrims)]
+        surf = Bag(('BSpline', 'Surface'), _tsl_component=tsl, _eval_points=evalpts, _kv_normalize=True, _trims=trims, _delta=[0.5, 0.25], _pdim=2, _rational=False,
+                   _degree=[1, 1], _control_points_size=[2, 2], _control_points=pts(4, 3), _knot_vector=[[0.0, 0.0, 1.0, 1.0], [0.0, 0.0, 1.0, 1.0]], _dimension=3,
+                   _cache={}, _bounding_box=[], _control_points2D=[], _precision=18, _evaluator=None)
+        surf._a['evaluate_single'] = Py(lambda sk, node, uv: [L('S', float(uv[0]), float(uv[1]), c) for c in range(3)], 'evaluate_single')
+        return surf, tsl, evalpts, trims, verts
+    why = None
+    try:
+        surf, tsl, evalpts, trims, verts = make()
+        sk = SK(m, dict(STD_ABSTRACTED))
+        su = sk.call(m.lookup(surf._cls, 'sample_size_u', 'getters'), [surf], {})
+        sv = sk.call(m.lookup(surf._cls, 'sample_size_v', 'getters'), [surf], {})
+        if su == sv:
+            raise AnalysisError('TV3: the stand-in surface has equal sample sizes; the driver needs different ones')
+        sk.call(fi, [surf], {'size_u': 99, 'trims': 'mine', 'vertex_spacing': 2} if extra else {})
+        if not extra:
+            return None
+        if len(calls) != 1:
+            why = 'the component is asked to tessellate %d times by the first call' % len(calls)
+        else:
+            p_, kw_ = calls[0]
+            if p_ is not evalpts and [id(x) for x in p_] != [id(x) for x in evalpts]:
+                why = 'the component is not given the evaluated points of the surface'
+            elif kw_.get('size_u') != su or kw_.get('size_v') != sv:
+                why = 'the component is given size_u = %r, size_v = %r; the sample sizes of the surface are (%r, %r)' % (kw_.get('size_u'), kw_.get('size_v'), su, sv)
+            elif not isinstance(kw_.get('trims'), (list, tuple)) or [id(x) for x in kw_['trims']] != [id(x) for x in trims]:
+                why = 'the component is not given the trims of the surface (got %r)' % (kw_.get('trims'),)
+            elif kw_.get('vertex_spacing') != 2:
+                why = 'other keywords of the caller are not forwarded to the component (vertex_spacing: %r)' % (kw_.get('vertex_spacing'),)
+
+        def evaluated(n_call):
+            for k, v in enumerate(verts):
+                want = [('S', float(uvs[k][0]), float(uvs[k][1]), c) for c in range(3)]
+                got = [sorted(x.dep)[0] if isinstance(x, Tok) and x.dep and len(x.dep) == 1 else None for x in v._a['data']]
+                if got != want:
+                    return 'after %s, vertex %d with (u, v) = %s carries %s, not the surface point at its own parameters' % (n_call, k, uvs[k], 'the grid point the component gave it' if got and got[0] and got[0][0] == 'grid' else got)
+            return None
+        if why is None:
+            why = evaluated('the first call')
+        if why is None:
+            sk.call(fi, [surf], {})
+            if len(calls) != 1:
+                why = 'a second call tessellates again although the component reports a tessellation'
+        if why is None:
+            sk.call(fi, [surf], {'force': True})
+            if len(calls) != 2:
+                why = 'force=True does not tessellate again'
+            else:
+                why = evaluated('the forced call')
+    except Violation as v:
+        why = '%s %s' % (v.msg, v.where())
+    except Unsupported as ex:
+        raise AnalysisError('%s: interpreter met an unsupported construct: %s' % (fi.key, ex))
+    return why
